@@ -168,8 +168,16 @@ func (f *DB) Reload(path string, validationKey []byte, reloadTimeout time.Durati
 	var destroyNewDbi bool
 	var err error
 
+	// The reload goroutine works on f.dbi until Reload returns, possibly long after we
+	// gave up on it (timeout): hold a reference like a reader does, so that a later
+	// reload or shutdown cannot close the backend under it.
+	f.l.Lock()
+	f.refCount++
+	f.l.Unlock()
+
 	// reload goroutine
 	go func() {
+		defer f.release()
 		var localDBI DBI
 		localDBI, err = f.dbi.Reload(path)
 		m.Lock()
@@ -227,6 +235,18 @@ func (f *DB) Reload(path string, validationKey []byte, reloadTimeout time.Durati
 	}
 
 	return f, nil
+}
+
+// release drops a reference taken on the DB; the last reference of a destroyed
+// DB closes the backend (see Destroy and DataReader.Close).
+func (f *DB) release() {
+	f.l.Lock()
+	defer f.l.Unlock()
+	f.refCount--
+	if f.destroyable && f.refCount == 0 {
+		glog.Infof("refcount == 0 && destroyable: Closing DB")
+		f.dbi.Close()
+	}
 }
 
 // validateDbKeyOrDestroy validates DB with the validationKey, and destroys the
